@@ -82,7 +82,7 @@ fn child_main(sc: &'static dyn Scenario, params: &Value, tmpdir: &str) -> ! {
     let stats = json!({
         "f_enobufs": st.f_enobufs, "f_txerr": st.f_txerr, "f_eintr": st.f_eintr, "f_short_batch": st.f_short,
         "f_fderr": st.f_fderr, "f_poll_eintr": st.f_poll_eintr, "f_timejump": st.f_timejump, "f_corrupt": st.f_corrupt,
-        "f_crash": st.f_crash, "f_close_stdin": st.f_close_stdin, "f_fd_limit": st.f_fd_limit, "f_exec_child": st.f_exec_child, "inherited_fds": st.inherited_fds,
+        "f_crash": st.f_crash, "f_close_stdin": st.f_close_stdin, "f_fd_limit": st.f_fd_limit, "f_exec_child": st.f_exec_child, "f_fork_real": st.f_fork_real, "inherited_fds": st.inherited_fds,
         "p_send_blocked": st.p_send_blocked, "p_recv_blocked": st.p_recv_blocked, "p_followup_blocked": st.p_followup_blocked,
         "p_fragmented_send": st.p_frag_send, "p_followup_tx": st.p_followup_tx, "p_epoll_full_batch": st.p_epoll_full,
         "p_epoll_blocked": st.p_epoll_blocked, "p_poll_timeout": st.p_poll_timeout, "p_ctrunc": st.p_ctrunc,
